@@ -128,6 +128,14 @@ class Schema:
                     tags = []
                     if e['tags'] is not None:
                         tags = [[S(k), self.value(e['tags'], ids)] for k in r.sample(['k', 't', 'x y', ''], r.randrange(0, 3))]
+                    bad = r.random()
+                    if bad < 0.03:
+                        parents = parents + [gen.vent(r.choice(sorted(self.entities) + ['Nope']), 'a')]          # a parent of a type the schema may not allow
+                    elif bad < 0.06:
+                        tags = tags + [[S('k'), r.choice([gen.vlong(1), gen.vstr('s'), gen.vbool(True), gen.vdec(1)])]]   # a tag of the wrong type / on a type without tags
+                    elif bad < 0.1 and len(attrs) > 1:
+                        i_ = r.randrange(1, len(attrs))                                                           # an attribute value of another type
+                        attrs = attrs[:i_] + [[attrs[i_][0], r.choice([gen.vlong(7), gen.vstr('x'), gen.vset([gen.vlong(1)]), gen.vip(gen.IPS[0]), gen.vdur(5), gen.vent('Nope', 'a'), gen.vrec([])])]] + attrs[i_ + 1:]
                     ents.append(['ent', gen.vent(n, i), ['parents'] + parents, ['attrs'] + attrs[1:], ['tags'] + tags])
         # enumerated entities: usually absent or bare (conforming); sometimes with an undeclared id, parents, attributes or tags, which
         # the validator's own conformance check must reject (the run is then not counted: an accepted one is evaluated)
@@ -152,6 +160,16 @@ class Schema:
         d = self.actions[a]
         ids = ['a', 'b', 'c', 'zz']
         cx = self.record(d['context'], ids[:3])
+        bad = r.random()
+        if bad < 0.04 and len(cx) > 1:
+            i_ = r.randrange(1, len(cx))                       # NOT conforming: a context attribute of another type
+            cx = cx[:i_] + [[cx[i_][0], r.choice([gen.vlong(7), gen.vstr('x'), gen.vset([gen.vstr('a')]), gen.vdec(5), gen.vrec([])])]] + cx[i_ + 1:]
+        elif bad < 0.07:
+            # NOT conforming: a principal / resource type the action does not apply to, or an action the schema does not declare
+            other = r.choice(sorted(self.entities) + ['Nope'])
+            k_ = r.randrange(3)
+            return ['req', gen.vent(other if k_ == 0 else r.choice(d['principals']), r.choice(ids)), gen.vent('Action', 'nosuch' if k_ == 1 else a),
+                    gen.vent(other if k_ == 2 else r.choice(d['resources']), r.choice(ids)), cx]
         if r.random() < 0.12:
             cx = cx + [[S('undeclared'), r.choice([gen.vlong(1), gen.vstr('s'), gen.vrec([('min', gen.vlong(1))])])]]      # NOT conforming, see store()
         return ['req', gen.vent(r.choice(d['principals']), r.choice(ids)), gen.vent('Action', a), gen.vent(r.choice(d['resources']), r.choice(ids)), cx]
@@ -167,7 +185,7 @@ class Schema:
         if want == ('prim', 'Bool'):
             if depth <= 0:
                 return lit(gen.vbool(r.random() < 0.5))
-            k = r.randrange(9)
+            k = r.randrange(10)
             d = depth - 1
             if k == 0: return ['and', self.texpr(want, env, d, guarded), self.texpr(want, env, d, guarded)]
             if k == 1: return ['or', self.texpr(want, env, d, guarded), self.texpr(want, env, d, guarded)]
@@ -190,6 +208,42 @@ class Schema:
                 return ['contains', self.texpr(t, env, d, guarded), self.texpr(t[1], env, d, guarded)]
             if k == 7:
                 return ['in', ['var', r.choice(['principal', 'resource'])], lit(gen.vent(r.choice(sorted(self.entities)), 'a'))]
+            if r.random() < 0.6:
+                # the remaining operators and the extension methods (every typing rule of the checker gets exercised)
+                T = lambda n: ('prim', n)
+                ety = ('ent', r.choice(sorted(self.entities)))
+                sety = ('set', T(r.choice(['Long', 'String'])))
+                m = r.randrange(16)
+                if m == 0: return ['like', self.texpr(T('String'), env, d, guarded), r.choice([['pat', S('a'), ['w']], ['pat', ['w']], ['pat', S('al'), ['w'], S('e')], ['pat', S('')]])]
+                if m == 1: return ['is', self.texpr(ety, env, d, guarded), S(r.choice(sorted(self.entities) + ['Nope']))]
+                if m == 2: return ['isIn', self.texpr(ety, env, d, guarded), S(r.choice(sorted(self.entities))), self.texpr(('ent', r.choice(sorted(self.entities))), env, d, guarded)]
+                if m == 3: return [r.choice(['containsAll', 'containsAny']), self.texpr(sety, env, d, guarded), self.texpr(sety, env, d, guarded)]
+                if m == 4: return ['isEmpty', self.texpr(sety, env, d, guarded)]
+                if m == 5: return ['gt', ['neg', self.texpr(T('Long'), env, d, guarded)], self.texpr(T('Long'), env, d, guarded)]
+                if m == 6: return ['call', S(r.choice(['lessThan', 'lessThanOrEqual', 'greaterThan', 'greaterThanOrEqual'])), self.texpr(T('decimal'), env, d, guarded), self.texpr(T('decimal'), env, d, guarded)]
+                if m == 7: return ['call', S(r.choice(['isIpv4', 'isIpv6', 'isLoopback', 'isMulticast'])), self.texpr(T('ipaddr'), env, d, guarded)]
+                if m == 8: return ['call', S('isInRange'), self.texpr(T('ipaddr'), env, d, guarded), self.texpr(T('ipaddr'), env, d, guarded)]
+                if m == 9: return ['lt', ['call', S('offset'), self.texpr(T('datetime'), env, d, guarded), self.texpr(T('duration'), env, d, guarded)], self.texpr(T('datetime'), env, d, guarded)]
+                if m == 10: return ['le', ['call', S('durationSince'), self.texpr(T('datetime'), env, d, guarded), self.texpr(T('datetime'), env, d, guarded)], self.texpr(T('duration'), env, d, guarded)]
+                if m == 11: return ['eq', ['call', S(r.choice(['toDate'])), self.texpr(T('datetime'), env, d, guarded)], self.texpr(T('datetime'), env, d, guarded)]
+                if m == 12: return ['ge', ['call', S('toTime'), self.texpr(T('datetime'), env, d, guarded)], self.texpr(T('duration'), env, d, guarded)]
+                if m == 13: return ['gt', ['call', S(r.choice(['toDays', 'toHours', 'toMinutes', 'toSeconds', 'toMilliseconds'])), self.texpr(T('duration'), env, d, guarded)], self.texpr(T('Long'), env, d, guarded)]
+                if m == 14:
+                    tagged = [(b, self.entities[t[1]]['tags']) for b, t in self.roots(env)[:2] if t[1] in self.entities and self.entities[t[1]]['tags'] is not None]
+                    if tagged:
+                        base, tt = r.choice(tagged)
+                        key = lit(gen.vstr(r.choice(['k', 't'])))
+                        return ['and', ['hasTag', base, key], ['eq', ['getTag', base, key], self.texpr(tt, env, d, guarded)]]
+                if m == 15:
+                    # the same operators fed operands of the WRONG type: both the checker and its model must reject (or accept) alike
+                    wrong = self.texpr(T(r.choice(['Long', 'String', 'Bool', 'decimal', 'ipaddr', 'datetime', 'duration'])), env, 0, guarded)
+                    other = self.texpr(r.choice([T('Long'), T('String'), sety, ety]), env, 0, guarded)
+                    return r.choice([['like', wrong, ['pat', ['w']]], ['is', wrong, S('User')], ['isEmpty', wrong], ['containsAll', wrong, other], ['contains', wrong, other],
+                                     ['gt', ['neg', wrong], lit(gen.vlong(0))], ['call', S('lessThan'), wrong, other], ['call', S('isIpv4'), wrong], ['call', S('isInRange'), wrong, other],
+                                     ['lt', ['call', S('offset'), wrong, other], other], ['gt', ['call', S('toDays'), wrong], lit(gen.vlong(0))], ['hasTag', wrong, lit(gen.vstr('k'))],
+                                     ['eq', ['getTag', wrong, other], other], ['in', wrong, other], ['call', S('decimal'), wrong], ['call', S('ip'), lit(gen.vstr('not an ip'))],
+                                     ['call', S('lessThan'), self.texpr(T('decimal'), env, 0, guarded)], ['call', S('nosuch'), wrong], ['eq', ['mkset', wrong, other], ['mkset']],
+                                     ['eq', ['mkrec', [S('a'), wrong], [S('a'), other]], ['mkrec']]])
             return ['if', self.texpr(want, env, d, guarded), self.texpr(want, env, d, guarded), self.texpr(want, env, d, guarded)]
         if want[0] == 'prim':
             n = want[1]
@@ -199,13 +253,25 @@ class Schema:
                 return lit(gen.vlong(r.choice([0, 1, 2, 7, gen.MAX64])))
             if n == 'String': return lit(gen.vstr(r.choice(['a', 'alice', ''])))
             if n in EXT_CTOR:
+                if r.random() < 0.2:
+                    return lit(self.value(want, ['a']))           # an extension VALUE rather than a constructor call
                 f, strs = EXT_CTOR[n]
                 return ['call', S(f), lit(gen.vstr(r.choice(strs)))]
         if want[0] == 'set':
+            k = r.random()
+            if k < 0.15:
+                return lit(self.value(want, ['a', 'b']))          # a set VALUE (policies decoded from JSON carry them)
+            if k < 0.22:
+                return ['mkset']                                   # the empty set literal
+            if k < 0.3:
+                # members of different types: an error in strict mode, a union / error in permissive mode
+                return ['mkset', self.texpr(want[1], env, 0, guarded), self.texpr(('prim', r.choice(['Long', 'String', 'Bool', 'ipaddr'])), env, 0, guarded)]
             return ['mkset'] + [self.texpr(want[1], env, depth - 1, guarded) for _ in range(r.randrange(1, 3))]
         if want[0] == 'ent':
             return lit(gen.vent(want[1], r.choice(['a', 'b'])))
         if want[0] == 'rec':
+            if r.random() < 0.15:
+                return lit(self.value(want, ['a', 'b']))          # a record VALUE
             return ['mkrec'] + [[S(k), self.texpr(t, env, depth - 1, guarded)] for k, (t, opt) in want[1].items()]
         return lit(gen.vbool(True))
 
